@@ -58,8 +58,9 @@ namespace adept {
       void push_rhs(const Real& multiplier, const uIndex& gradient_index) {
 #ifdef RJHOGAN_ADEPT_2_VERIF
 	if (n_operations_ >= n_allocated_operations_) {
+	  // The operation is dropped (not counted), so that a later
+	  // growth of the stack does not copy beyond the old buffer
 	  ADEPT_VERIF_EVENT('F', n_operations_, n_allocated_operations_);
-	  ++n_operations_;
 	  return;
 	}
 	ADEPT_VERIF_EVENT('p', n_operations_, n_allocated_operations_);
@@ -94,7 +95,6 @@ namespace adept {
 #ifdef RJHOGAN_ADEPT_2_VERIF
 	if (n_operations_+(Num-1)*Stride >= n_allocated_operations_) {
 	  ADEPT_VERIF_EVENT('F', n_operations_+(Num-1)*Stride, n_allocated_operations_);
-	  ++n_operations_;
 	  return;
 	}
 	ADEPT_VERIF_EVENT('i', Num, Stride);
